@@ -191,6 +191,11 @@ pub fn gen_source(r: &mut StdRng, o: &GenOpts, dir: &str, deps: &[String], is_de
                     } else {
                         ls.push(head("run", &format!("printf '{out}'")));
                     }
+                } else if t < 50 {
+                    // a quoted literal spanning continuation lines: an empty line is a space inside the quotes
+                    ls.push(head("run", "printf 'q"));
+                    ls.push(cont(r, ""));
+                    ls.push(cont(r, "r\\n'"));
                 } else if t < 65 {
                     ls.push(head("run", "echo one   two"));
                     if r.gen_bool(0.5) {
